@@ -104,6 +104,31 @@ class Repo:
         for mod in self.modules.values():
             for cls in mod.classes.values():
                 self._index_enum(cls)
+        # methods inherited from package base classes (a mixin, a base in another module); a method is interpreted in the
+        # module that defines it (fn_home)
+        self.fn_home: Dict[int, ModuleInfo] = {}
+        for mod in self.modules.values():
+            for fn in mod.functions.values():
+                self.fn_home[id(fn)] = mod
+            for cls in mod.classes.values():
+                for st in cls.node.body:
+                    if isinstance(st, ast.FunctionDef):
+                        self.fn_home[id(st)] = mod
+        done = set()
+
+        def inherit(cls: ClassInfo, depth=0):
+            if cls.qualname in done or depth > 6:
+                return
+            done.add(cls.qualname)
+            for b in cls.bases:
+                found = self.lookup(b) if b.startswith(PACKAGE + ".") else None
+                if found and found[0] == "class":
+                    inherit(found[2], depth + 1)
+                    for mname, mnode in found[2].methods.items():
+                        cls.methods.setdefault(mname, mnode)
+        for mod in self.modules.values():
+            for cls in mod.classes.values():
+                inherit(cls)
 
     def _index_module(self, mod: ModuleInfo) -> None:
         for node in mod.tree.body:
